@@ -53,6 +53,9 @@ func runC07(r *Runner, g *Gen, tier string) string {
 		}
 		r.Do(makeRegTraceOp(f.name, k, s), true, "regtrace.random")
 	}
+	// decode scratch pools: failed decodes followed by decodes into fresh variables (sequential histories; the
+	// concurrent use of one codec's scratch state is the protomap family)
+	poolHistories(r, g, scale(tier, 60, 2000))
 	// shared interning tables (the protocol itself is C19's subject): large table, then a race
 	internLargeOps(r, scale(tier, 3, 40))
 	n := scale(tier, 300, 20000)
